@@ -423,7 +423,10 @@ func (v *SequenceDiagramVisitor) visitEndpoint(e *EndpointElement) error {
 				if !isHidden {
 					fmt.Fprintf(v.w, "%s<--%s : %s\n", sender, agent, payload)
 				}
-				v.w.Deactivate(agent)
+				// Only a blackbox hit activated the agent above; a plain recursion cut did not.
+				if upto != nil {
+					v.w.Deactivate(agent)
+				}
 			}
 		} else {
 			deactivate := v.w.Activated(agent, isHuman || isCron)
